@@ -22,17 +22,23 @@ def fold_split_group(repo):
     return eng, obls, {}
 
 def build(repo, tier, seed):
-    tasks = M.hdlc_tasks(repo, None, True) + [("fold_split", fold_split_group, (repo,))]
+    from props import ideal_hdlc as ID
+    tasks = M.hdlc_tasks(repo, None, True) + [("fold_split", fold_split_group, (repo,))] + [(f"ideal receiver {cfg}", ID.group_ideal, (repo, cfg)) for cfg in M.CONFIGS]
     r = M.groups_result(tasks, select=None)
     r.functions = sorted(M.READER_FUNCS)
-    r.level = "other"
-    r.explanation = ("C06: proved from the real source, four configurations: (a) read() is only entered and left with nothing unconsumed, so no state hides in the buffer; (b) every loop iteration is one _read_next "
-                     "step whose effect on (mode, frame octets, raw octets, pending escape) and whether a frame completes is given case by case by clauses T1-T10 as a function of that state and the next octet only; "
-                     "(c) hunt-mode trimming skips non-flag octets, which T1 shows to be no-ops; (d) the frames appended to the result are exactly the completed ones; (e) the state is tied to the ghost input stream "
-                     "(raw == stream segment after the last flag, octets == unstuff(raw)), i.e. it is a function of the consumed prefix; (f) the generic fold-split lemma over an uninterpreted step function. "
-                     "The composition of (a)-(f) into 'any two chunkings give the same frames' is an induction on the stream that is argued in DESIGN.md, not mechanised; a BOUNDED exhaustive differential run on the real reader "
-                     "(all streams up to a small length over a reduced alphabet x all cut sets) stands in for it. Hence level 'other'.")
-    r.not_decided = ["the final induction composing the per-step contracts into chunk independence is not mechanised (bounded differential stand-in)"]
+    r.level = "proof"
+    r.explanation = ("C06: proved from the real source, four configurations, for EVERY byte stream: (1) _read_next's contract: reader invariant and the exact transition clauses T1-T14 (effect of the next octet on mode, frame array and length, "
+                     "raw length, pending escape, completion; where the read position is after a discard); (2) read() against the ideal receiver (props/ideal_hdlc.py): ghost functions of the stream position, defined by recurrence on the "
+                     "position alone (the T-clauses read as definitions, plus 'a new empty frame after a completed one'), give what a receiver that reads the stream octet by octet holds at p and how many frames it has completed. "
+                     "With STATE(g) = 'the reader's mode, frame array, length, pending escape and raw length are the ideal receiver's at g', read(chunk) takes STATE(g) (nothing unconsumed) to STATE(g+len(chunk)) and returns exactly the ideal "
+                     "receiver's completions inside the chunk, in order, with its octets. The ideal receiver depends on the stream only, so any two splittings return the same frames (sequential composition of the contract; validity and payload "
+                     "are functions of the octets by the frame contracts of C01). Hunt-mode skipping is covered by an induction lemma (the ideal receiver keeps hunting and completes nothing until the next flag). "
+                     "The generic fold-split lemma and the bounded differential runs are kept as cross-checks.")
+    r.assumptions = ["the ideal receiver's recurrences are definitions (total, one successor state per state and octet): nothing is assumed about the stream", "chunks are consecutive segments of one stream (ghost array G)",
+                     "the composition over calls (same predicate before and after each call) is the sequential-composition rule, applied by hand"]
+    r.not_decided = []
     b = run.rt_call("C06", "chunk_independence", {"seed": seed, "maxlen": 7 if tier == "quick" else 9, "rand": 600 if tier == "quick" else 20000})
     r.bounded.append(b if "name" in b else {"name": "chunk_independence", "error": b.get("error", b)})
+    b = run.rt_call("C06", "ideal_receiver_check", {"seed": seed, "n": 400 if tier == "quick" else 8000})
+    r.bounded.append(b if "name" in b else {"name": "ideal_receiver_check", "error": b.get("error", b)})
     return r
